@@ -323,7 +323,8 @@ def body(case):
         if node is None or not node.get("updatable") or np.shape(node["value"]) != np.shape(vals):
             continue
         rs = routes.get(uid, [])
-        r = (case.get("route", 0) + i) % (len(rs) + 1)
+        route = case.get("route", 0) + i
+        r = 0 if (route % 2 == 0 or not rs) else 1 + (route // 2) % len(rs)
         target = dic[uid] if r == 0 else rs[r - 1]
         labels.append("update_via_registry" if r == 0 else "update_via_holder")
 
